@@ -450,6 +450,38 @@ def gen_history(rng, nops):
     return finish(m, lines, rng)
 
 
+def ckey_history(rng):
+    """an object some of whose members were added with JSON_C_OBJECT_ADD_CONSTANT_KEY (the table points at the caller's
+    key, owns no copy), grown through several table sizes (a resize re-inserts every entry and has to carry each entry's
+    own key ownership over), with deletes and replacements in between; at the end nothing may remain allocated"""
+    m = Mirror()
+    lines = ["nomem", "newo"]
+    m.apply("newo")
+    n = rng.choice([14, 25, 45, 70, 130])
+    first_const = rng.chance(0.7)
+    keys = []
+    for i in range(n):
+        k = hx("ck%d" % i)
+        kind = rng.choice(["news", "news", "newa", "newo"])
+        lines.append(kind); m.apply(kind)
+        v = m.next - 1
+        const = (i == 0 and first_const) or rng.chance(0.15)
+        opts = (4 if const else 0) | (2 if rng.chance(0.3) else 0)
+        l = "oadd 0 %s %d %d" % (k, v, opts)
+        lines.append(l); m.apply(l)
+        keys.append(k)
+        if rng.chance(0.08) and len(keys) > 2:
+            d = keys.pop(rng.randrange(len(keys)))
+            l = "odel 0 %s" % d
+            lines.append(l); m.apply(l)
+        if rng.chance(0.08):
+            # replace an existing member's value (the entry keeps its key and its ownership)
+            lines.append("news"); m.apply("news")
+            l = "oadd 0 %s %d %d" % (rng.choice(keys), m.next - 1, rng.choice([0, 4]))
+            lines.append(l); m.apply(l)
+    return finish(m, lines, None)
+
+
 A, B, K = hx("a"), hx("b"), hx("k1")
 SCENARIOS = [
     # replace the same key twice
@@ -557,6 +589,8 @@ def gen(rng, tier):
     n = 3000 if tier == "quick" else 30000
     for i in range(n):
         yield {"lines": gen_history(rng, rng.choice([4, 10, 25, 50, 80]))}
+    for i in range(12 if tier == "quick" else 120):
+        yield {"lines": ckey_history(rng)}
     yield from enumerate_small(4 if tier == "quick" else 5)
 
 
